@@ -2,11 +2,18 @@
 Lemmas.ATrigBound — real-analysis layer for C16 (tan) and C17 (asin / acos / atan).
 
  1. more list-polynomial operations on top of `TrigBound` (`padd`, `pmul`, `pderiv`, `peven`, `podd`) with their
-    soundness lemmas, and a mean-value wrapper `poly_approx_of_deriv`.
- 2. Taylor polynomials of `arcsin` and `arctan` of arbitrary degree with an explicit remainder, by the derivative
-    argument: `E = f − A`, `E(0) = 0`, `E' = (polynomial identity)/(positive)`, the polynomial bounded by the kernel.
- 3. the coefficient tables of the crate's `restricted_asin`, `restricted_tan`, `restricted_atan` as exact rationals,
-    and the approximation errors of the three polynomials.
+    soundness lemmas, a mean-value wrapper `poly_approx_of_deriv`, and a one-evaluation cell checker `checkAll1`.
+ 2. `arcsin_approx` / `arctan_approx`: ANY odd-type polynomial `A` whose derivative `D` nearly solves
+    `D²·(1 − r²) = 1` resp. `D·(1 + r²) = 1` (two closed rational facts, checked by the kernel) approximates
+    `arcsin` resp. `arctan` — this yields Taylor polynomials of arbitrary degree with explicit remainders without any
+    series theory: `arcsin_taylor` (degree 51, `2^-50` on `|r| ≤ 1/2 + 2^-17`), `arctan_taylor` (degree 71, `2^-85` on
+    `|r| ≤ 7/16 + 2^-20`), `arctan_half_encl`, `arctan_fifth_encl` (rational enclosures to `2^-120`, `2^-130`).
+ 3. `restricted_asin`: `asin_poly_rel` (`|arcsin r − P(r)| ≤ |r|·(2^-45 + 2^-50)`; true maximum `≈ 2^-45.27`),
+    `asin_poly_abs` (`9·2^-50`), `arcsin_half_angle`, `arcsin_lipschitz`.
+ 4. `restricted_tan`: `tan_poly_rel` (`|tan r − P(r)| ≤ 9·2^-54·|tan r|` on `|r| ≤ 0.786`; true maximum `≈ 2^-52.97`),
+    via `tan = sin / cos` and the Taylor polynomials of `TrigBound`; `tan_perturb`.
+ 5. `restricted_atan`: `atan_poly_rel` (`|arctan r − P(r)| ≤ |r|·(2^-72 + 2^-85)`; true maximum `≈ 2^-73.19`),
+    `abs_arctan_ge`, `arctan_sub_const` (the reduction identity), `arctan_three_halves`.
 
 No dependency on the model: `Properties/C16u.lean` / `C17t.lean` prove that the literal tables here are the
 model's tables.
